@@ -95,6 +95,14 @@ func LeafOn(r *rand.Rand, p Path) ref.Stmt {
 			}
 			return ref.Stmt{Kind: "==", Sel: p.Sel, Val: o}
 		}
+		if r.IntN(2) == 0 && len(v.S) > 0 {
+			// a suffix / random pieces of the string behind a wildcard
+			k := r.IntN(len(v.S))
+			for k > 0 && v.S[k]&0xc0 == 0x80 {
+				k--
+			}
+			return ref.Stmt{Kind: "like", Sel: p.Sel, Pat: "*" + EscapeGlob(v.S[k:])}
+		}
 		return ref.Stmt{Kind: "like", Sel: p.Sel, Pat: GlobFor(r, v.S)}
 	default:
 		o := v
